@@ -58,8 +58,13 @@ def _reg():
     return out
 
 
+OPAQUE: list = []  # registry values no view could look into (reported as a probe, never silently)
+
+
 def _is_seq(v) -> bool:
-    return isinstance(v, (list, tuple))
+    from collections.abc import Sequence
+
+    return isinstance(v, (list, tuple)) or (isinstance(v, Sequence) and not isinstance(v, (str, bytes, bytearray)))
 
 
 def _is_map(v) -> bool:
@@ -94,7 +99,8 @@ def fast_view() -> tuple:
             else:
                 parts.append((tuple(val), tuple(map(id, vals)), hash(repr(val))))
         else:
-            parts.append(repr(val))
+            OPAQUE.append(type(val).__name__)
+            parts.append(repr(type(val)))
     try:
         parts.append(tuple((k, id(v)) for k, v in checksum.algorithms.items()))
     except Exception:  # noqa: BLE001 - an algorithm table that cannot be enumerated
@@ -195,14 +201,41 @@ def deep_view() -> dict:
     out: dict = {}
     bank = reg.get("bank")
     pos = {id(e): i for i, e in enumerate(bank)} if _is_seq(bank) else {}
+    by_content: dict = {}
+
+    def positions_of(entries) -> list:
+        """Positions in the bank list of the given entries: by identity where possible, else of content-equal bank
+        entries (the k-th copy of a duplicated content maps to the k-th such position not already taken)."""
+        out = []
+        taken: set = set()
+        for e in entries:
+            i = pos.get(id(e))
+            if i is None:
+                if not by_content and _is_seq(bank):
+                    for j, b in enumerate(bank):
+                        try:
+                            by_content.setdefault(repr(sorted(b.items())), []).append(j)
+                        except Exception:  # noqa: BLE001
+                            pass
+                try:
+                    cands = by_content.get(repr(sorted(e.items())), [])
+                except Exception:  # noqa: BLE001
+                    cands = []
+                i = next((c for c in cands if c not in taken), cands[-1] if cands else None)
+            if i is not None:
+                taken.add(i)
+            out.append(i)
+        return out
+
     for name, val in reg.items():
         if _is_seq(val):
             out[repr(name)] = [_canon_leaf(e) for e in val]
         elif _is_map(val):
             d = {}
             for k, v in val.items():
-                if _is_seq(v) and v and all(id(e) in pos for e in v):
-                    d[repr(k)] = ["@", [pos[id(e)] for e in v]]
+                where = positions_of(v) if _is_seq(v) and v and pos else None
+                if where is not None and all(w is not None for w in where):
+                    d[repr(k)] = ["@", where]  # index membership and order, whether by the same or by equal entries
                 else:
                     d[repr(k)] = _canon_leaf(v)
             out[repr(name)] = d
